@@ -38,3 +38,7 @@ Print Assumptions C25_status_redis_node_partial.
 Theorem C25_status_redis_workload_partial : C25_redis_workload_partial_stmt.
 Proof. exact C25_redis_workload_partial_holds. Qed.
 Print Assumptions C25_status_redis_workload_partial.
+
+Theorem C25_status_etcd_node_expires : C25_etcd_node_expires_stmt.
+Proof. exact C25_etcd_node_expires_holds. Qed.
+Print Assumptions C25_status_etcd_node_expires.
